@@ -94,6 +94,12 @@ var c13Entry = &zz.ObjectEntry{
 	Kind:       "HTTPServer",
 	NewDefault: func() interface{} { return (&HTTPServer{}).DefaultSpec() },
 	Pats:       zz.Patterns(reflect.TypeOf(&Spec{})),
+	Skip: func(spec interface{}) string {
+		if s, ok := spec.(*Spec); ok && s.GlobalFilter != "" {
+			return "HTTPServer bound to a GlobalFilter (looked up through a running supervisor)"
+		}
+		return ""
+	},
 	Run: func(super *supervisor.Spec, in *zz.In, obs *zz.Obs) {
 		var m *mux
 		if !zz.Stage(obs, "init", "mux.reload", func() {
@@ -156,6 +162,9 @@ func TestVerifC13HTTPServer(t *testing.T) {
 			src = "adv"
 		}
 		n := vfN(60)
+		if adv && n > 200 {
+			n = 200 // bounded budget of the failing-input search
+		}
 		for i := 0; i < n; i++ {
 			ins = append(ins, c13Gen(root.Fork(i), i, adv))
 			ids, srcs = append(ids, fmt.Sprintf("%s-hs-%d", src, i)), append(srcs, src)
